@@ -99,9 +99,10 @@ inductive Prov (d : Dict) (strat : Strategy) (c : Composition) : Interval → Pr
   | dict {s e : Nat} {ph : Phrase} : s < e → e ≤ c.symbols.length →
       (∀ sym ∈ slice c s e, sym.isSyl = true) → ph ∈ d.lookup (sylPrefix (slice c s e)) strat →
       Prov d strat c { start := s, stop := e, isPhrase := true, text := ph.text }
-  /-- the text of an explicit user selection over exactly its range -/
-  | sel {x : Interval} : x ∈ c.selections →
-      Prov d strat c { start := x.start, stop := x.stop, isPhrase := true, text := x.text }
+  /-- the text of an explicit user selection over exactly its range (the Chewing engine marks it as a
+      phrase, the simple engine copies the selection's own flag) -/
+  | sel {x : Interval} {b : Bool} : x ∈ c.selections →
+      Prov d strat c { start := x.start, stop := x.stop, isPhrase := b, text := x.text }
   /-- two such texts joined across a `Glue` gap -/
   | glue {s m e : Nat} {t₁ t₂ : Text} :
       Prov d strat c { start := s, stop := m, isPhrase := true, text := t₁ } →
